@@ -493,3 +493,6 @@ func (e *Engine) FunctionsEncoded() []map[string]interface{} {
 }
 
 var startTime = time.Now()
+
+// cexPerLabel: how many counterexamples (from different paths) are extracted per assertion label.
+var cexPerLabel = 1
